@@ -25,7 +25,7 @@ THEOREMS = ['Vakt.C15.op_committed_and_clean', 'Vakt.C15.run_clean', 'Vakt.C15.c
 EXTRA_BUILD = ['+Gen.EquivSql']
 GEN_IMPORTS = ['Gen.EquivSql']
 GEN_THEOREMS = ['Vakt.GenEquiv.gen_sql_add', 'Vakt.GenEquiv.gen_sql_update', 'Vakt.GenEquiv.gen_sql_delete',
-                'Vakt.GenEquiv.gen_sql_get', 'Vakt.GenEquiv.translatedSql_covers']
+                'Vakt.GenEquiv.gen_sql_get', 'Vakt.GenEquiv.gen_sql_get_all', 'Vakt.GenEquiv.translatedSql_covers']
 FLOOR = {'quick': 40, 'thorough': 500}
 ASSUMPTIONS = ['SQLite + SQLAlchemy transaction semantics are trusted; durability against OS / power failure and other '
                'database engines are not exhibited',
